@@ -44,9 +44,24 @@ void harness(void)
 #else                    /* the first byte is the first byte of the object: any read before it is out of bounds */
     unsigned char *s = buf;
 #endif
+#ifdef VF_LONG
+    /* long family: one symbolic fill byte everywhere except VF_LONG symbolic positions holding arbitrary bytes */
+    unsigned char fill = nondet_uchar();
+    VF_ASSUME(fill != 0);
+    unsigned lp[VF_LONG];
+    unsigned char lb[VF_LONG];
+    for (unsigned k = 0; k < VF_LONG; k++) { lp[k] = nondet_uint(); lb[k] = nondet_uchar(); VF_ASSUME(lb[k] != 0); }
+#endif
     for (unsigned i = 0; i < n + c; i++) {
         s[i] = nondet_uchar();
         VF_ASSUME(s[i] != 0);
+#ifdef VF_LONG
+        if (i < n) {
+            unsigned char ch = fill;
+            for (unsigned k = 0; k < VF_LONG; k++) if (i == lp[k]) ch = lb[k];
+            s[i] = ch;
+        }
+#endif
 #ifdef VF_ASCII_ONLY
         VF_ASSUME(i >= n || s[i] < 0x80);
 #endif
